@@ -91,6 +91,7 @@ class Sim:
         self.loop = VirtualLoop()
         self._entered = False
         self.idle_hooks = []
+        self.driver_handles = []
         self.iterations = 0
         self.max_iterations = 2_000_000
 
@@ -148,13 +149,15 @@ class Sim:
             self.step()
 
     def run_handle(self, handle):
-        """run until the given timer handle has been executed, then settle"""
-        done = handle._verif_done
+        """run until the given driver handle (from call_at) has been executed, then settle"""
+        done = handle[1]
         while not done[0]:
             self.step()
         self.settle()
 
     def call_at(self, when, fn, *args):
+        """schedule a driver callback as a timer, so that it interleaves with the library's own
+        timers exactly like an external event would; returns (timer handle, done flag)"""
         done = [False]
 
         def _cb():
@@ -166,8 +169,8 @@ class Sim:
         if when < self.now:
             when = self.now
         h = self.loop.call_at(when, _cb)
-        h._verif_done = done
-        return h
+        self.driver_handles.append(h)
+        return (h, done)
 
     def do_at(self, when, fn, *args):
         h = self.call_at(when, fn, *args)
